@@ -94,7 +94,7 @@ def judge(run, items, tag):
             ast = vparse.parse(text)
         except vparse.VSyntaxError as e:
             if e.kind == 'illegal':
-                run.violation('C01:unparseable:%s' % d['kind'], {'design': d['name'], 'error': str(e), 'text': text[:2000]},
+                run.violation('%s:unparseable:%s' % (run.pid, d['kind']), {'design': d['name'], 'error': str(e), 'text': text[:2000]},
                               'emitted text of %s cannot be executed: %s' % (d['name'], e))
             else:
                 run.cov['unsupported'] = run.cov.get('unsupported', 0) + 1
@@ -124,7 +124,7 @@ def judge(run, items, tag):
                        'verilog_value_limbs': r[4][1] if isinstance(r[4], list) else None, 'inputs_limbs': step['i'],
                        'simulator_outputs_limbs': step['o'], 'input_ports': tr['ins'], 'output_ports': tr['outs'], 'text': text[:3500]}
                 tr_ = sorted(traits(d['top']))
-                sig = 'C01:%s' % tr_[0] if tr_ else 'C01:%s:%s' % (r[3], d['kind'])
+                sig = '%s:%s' % (run.pid, tr_[0]) if tr_ else '%s:%s:%s' % (run.pid, r[3], d['kind'])
                 run.violation(sig, wit,
                               '%s: emitted Verilog and simulator disagree on %s at %s' % (d['name'], wit['output'],
                                                                                            'power-up' if r[2] == 0 else 'cycle %d' % r[2]))
@@ -174,6 +174,12 @@ def check(run):
         designs = vdesigns.library_designs(widths=(1, 2, 3, 4), rng=rng, frac=1.0)
         ncomp, cycles, limit, npair = 1500, 60, 256, 1000
     judge(run, gather(run, designs, rng, cycles, limit), 'lib')
+    # port widths beyond 32 bits (unsized Verilog literals and integer contexts are 32 bit wide): values travel as limb vectors
+    wide = []
+    with quiet():
+        for w, frac in ([(33, 0.05), (64, 0.05)] if run.tier == 'quick' else [(31, 0.3), (32, 0.3), (33, 0.5), (40, 0.3), (64, 0.5)]):
+            wide += vdesigns.library_designs(widths=(w,), rng=rng, frac=frac)
+    judge(run, gather(run, wide, rng, min(cycles, 16), 32), 'wide')
     comps = []
     with quiet():
         for k in range(ncomp):
